@@ -47,14 +47,28 @@ BUDGET = {"quick": {"fake": 240, "fake_sessions": 120, "models": 114, "catalogue
           "thorough": {"fake": 4000, "fake_sessions": 2000, "models": 2280, "catalogue": 60, "radau_every": 4, "cython": 8,
                        "history": 240, "siblings": 160, "forms": 100, "entries_per_session": 5}}
 RULE = ("fake-integrator cases: random entry point (integrateFuncJac, integrate2, _integrate2, integrate, solve_determ), "
-        "1-4 states, dyadic x0/c/t0, grid kind (uniform, non-uniform incl. repeated/unsorted times, one point, scalar, empty, "
+        "1-4 states, dyadic x0/c/t0 (a quarter with t0 moved by +-738000, +-1e4, 2^20, -2^24; spacings down to 1/1024), grid kind (uniform, non-uniform incl. repeated/unsorted times, one point, scalar, empty, "
         "not-a-time, None), container (list/tuple/ndarray/int/float/np.float64), method in {None,lsoda,vode,ivode,dopri5,dop853, "
         "unknown strings}, full_output, includeOrigin, random aliasing table per integrator, random eigenvalue summary (incl. the "
         "thresholds 0 and -2 exactly); non-trivial when the call returned rows that agree with the model. "
-        "Runtime cases: autonomous random models from harness/gen.py (1-4 states, 1-4 events, all routes, derived parameters, "
+        "Runtime cases: random models from harness/gen.py (1-4 states, 1-4 events, all routes, derived parameters, "
         "explicit ODE terms; parameters in [1/8,1], x0 in [1/4,2], horizon min(Tmax, 2/|J(x0)|), uniform or non-uniform grid of "
-        "2-8 points, list or ndarray) and catalogue models of pygom.common_models (SIS, SIR, SEIR, Lotka_Volterra, SIR_norm, "
-        "FitzHugh, vanDerPol, Lorenz and the stiff Robertson system (odeint / lsoda / bdf entry points only); equations re-written by hand from their docstrings) x 43 entry-point configurations "
+        "2-8 points, list or ndarray), families dealt from a deck by weight: general autonomous 10, general with time-dependent (periodic) "
+        "rates 3, one state / one parameter 2, and models at most FIRST ORDER IN THE STATES (linear_ode() is True): pure linear chains 3, "
+        "constant inflow / birth 4, constant explicit ODE terms 4, time-dependent coefficients multiplying states 4, mixtures 4, symmetric "
+        "Jacobian 2, all-zero Jacobian (constant and time-only terms) 2 - each routed as events only, explicit ODE terms only or any API route; "
+        "BOUNDARY VALUES: 12 % with parameters exactly zero, 12 % with initial states exactly zero (some or all); "
+        "and catalogue models of pygom.common_models (SIS, SIR, SEIR, Lotka_Volterra, SIR_norm, "
+        "FitzHugh, vanDerPol, Lorenz, the time-dependent SIS_Periodic and the stiff Robertson system (odeint / lsoda / bdf entry points only); "
+        "equations re-written by hand from their docstrings / source). SCENARIO of every runtime case: t0 near the origin (0, 1/2, -1, 3) or, 40 %, far "
+        "from it with both signs (+-738000, +-1e4, 1e6, -123456.5, 1e7, -1e8, 738000.5: spacing below 1e-5 |t|), horizon x 1 / 2^-10 / 2^-20 / 2^-30 "
+        "(t0 + tiny) / x 8 for decaying models (long); GRID MODIFICATIONS (weights none 10, repeat 3, tiny 2, ulp 1, at-t0 1, ulp-from-t0 1, one 2): "
+        "times repeated twice or three times, neighbours 4 / 64 / 2^20 ulps apart, neighbours one ulp apart, a first time equal to t0, a first "
+        "time one ulp after t0, a one-point grid. Every row is judged against the reference integrated in the REAL time (repeated times share "
+        "a row, a time equal to t0 gets x0); on a grid with a step of at most 4 ulps an IntegrationError of the scipy.integrate.ode based entry "
+        "points is tagged `zero-length-step:*:not-judged` (unchanged scipy refuses such steps for some integrators / states), anything RETURNED is "
+        "judged; when the first output lies within 4 ulps of t0 scipy's own odeint returns uninitialised rows (lsoda: 'tout too close to t') and "
+        "the odeint-based entry points are not judged. All x 43 entry-point configurations "
         "(integrate x2, solve_determ x2, integrate2 x 6 methods x full_output, integrateFuncJac x 6 methods x full_output x "
         "includeOrigin, scalar t x3); non-trivial when the reference solution moves by >1e-3 and every configuration was judged. "
         "Fake sessions: 4-14 operations on one fresh model (initial_state / initial_time / initial_values assignments, integrate, "
@@ -69,7 +83,9 @@ RULE = ("fake-integrator cases: random entry point (integrateFuncJac, integrate2
         "parameters (redrawn or the same values bound to other names), t0 and x0, grid: same length other values / same length and "
         "end points other interior / superset / subset / last time as a scalar, t0 and grid together, container, method, "
         "full_output, includeOrigin, entry point; parameters given scipy.stats distributions (half of the time used by a random "
-        "solve_determ) and then their plain numbers again}, solve, restore, solve; only what differs from what the instance was last given "
+        "solve_determ) and then their plain numbers again; a grid with repeated times; 12 %: an assignment the unchanged pygom rejects - x0 / "
+        "parameter array of the wrong length, unknown parameter name, a string or a list as initial time - after which everything it could have touched "
+        "is assigned again (`history=...+after-rejected-input`)}, solve, restore, solve; only what differs from what the instance was last given "
         "is re-assigned (initial_time / initial_state or initial_values; parameters as dict / partial dict / (name, value) tuples / "
         "list or ndarray in declaration order). SIBLINGS: live instances with the same names - parameter list (40%: and state list) "
         "declared in another order with other values (half of the time the same values on other names), a re-defined derived "
@@ -80,13 +96,19 @@ RULE = ("fake-integrator cases: random entry point (integrateFuncJac, integrate2
         "combinations, integer x0 and t0 with a fractional grid, a grid whose first time is t0 (IntegrationError of the "
         "scipy.integrate.ode based entry points on a zero-length step is tagged, not judged). A session is non-trivial when every "
         "reference moved by >1e-3, at least one solve was judged and (history, siblings) at least one changed configuration has a "
-        "reference differing by >1e-3 from the first one's")
+        "reference differing by >1e-3 from the first one's. Sessions sit near the origin or (30 %) far from it (tbase +-738000, +-1e4, 1e6, "
+        "-1e7, -123456.5); a quarter of their generated models are first order in the states, a fifth time-dependent")
 ASSUMPTIONS = ["PARTIAL: scipy's integrators (odeint; ode: lsoda/vode/dopri5/dop853) approximate the flow within tolerance - a "
                "hypothesis of the Lean theorems (Laws S: identity + semigroup of an ideal flow), validated on every run: "
                "|row - ref| <= 1e-6 (1+|ref|) against solve_ivp DOP853 rtol=atol=1e-12 (Radau cross-check <= 1e-8 on a subset)",
                "odeint-based entry points (integrate, solve_determ) run at scipy's default tolerance 1.49e-8: on instances where "
                "scipy's own odeint on the Lean right-hand side (no pygom involved) is itself further than 5e-8 (1+|ref|) from the "
                "reference, their acceptance is 20 x that error instead of 1e-6 (tagged odeint-acceptance=20x-direct-odeint-error)",
+               "grids with a zero-length or few-ulp step (repeated times, a first time at or next to t0) are inside the property's domain only "
+               "where the unchanged pygom / scipy return rows: an IntegrationError of the ode-based entry points there is tagged, not judged "
+               "(which integrator refuses depends on the method, on full_output and, through the eigenvalue-driven restart, on the state); "
+               "pygom.integrate does not look at odeint's success flag, so where scipy's odeint itself fails (first output within 4 ulps of "
+               "t0) its rows are uninitialised memory - observed, outside the assumption 'the solver approximates the flow', not judged",
                "random runtime instances are restricted to well-conditioned ones: reference exists, |x| <= 1e3, "
                "exp(int max(mu_2(J),0) dt) <= 20 along the reference, odeint at 1e-10 within 1e-8 (1+|ref|); others are rejected, "
                "counted in the input distribution, never judged",
